@@ -136,6 +136,8 @@ def rel_err(got, want, floor=0.0):
 # ------------------------------------------------------------------ generators
 def gen_x(rng, n):
     r = rng.random()
+    if r < 0.06:
+        return [float(i) for i in range(n)], "implied"
     if r < 0.35:
         return [rng.uniform(-1e3, 1e3) for _ in range(n)], "spread"
     if r < 0.55:
@@ -304,6 +306,11 @@ def case_fit(mon, xs, ys, names, pseed):
              "via-set": lambda: _via_set(xs, ys)}
     if n >= 2:
         forms["flat"] = lambda: CF(*flat)
+    if list(xs) == list(range(n)):
+        # ordinates only: the abscissae 0, 1, 2, ... are implied
+        forms["y-only"] = lambda: CF(list(ys))
+        forms["y-only-tuple-via-set"] = lambda: _via_set_y(ys)
+        mon.cls("form:y-only", ident)
     for name, fn in forms.items():
         mon.evals += 1
         try:
@@ -394,6 +401,13 @@ def _via_set(xs, ys):
     from pymeeus.CurveFitting import CurveFitting as CF
     o = CF([1, 2, 3], [4, 5, 7])
     o.set(list(xs), list(ys))
+    return o
+
+
+def _via_set_y(ys):
+    from pymeeus.CurveFitting import CurveFitting as CF
+    o = CF([1, 2, 3], [4, 5, 7])
+    o.set(tuple(ys))
     return o
 
 
